@@ -4,16 +4,31 @@ Cases are JSON descriptions (values shape + data, axis_destination, leaf shapes 
 the REAL BroadcastDiagonalOperator / DiagonalOperator / DiagonalInverseOperator from them, `model_term`
 the corresponding term of Model/Diagonal.v.  The oracle is an independent NumPy implementation of the
 element formula of the property (explicit loops over multi-indices); it never looks at the model.
+
+The `dtype` stream (stored values of one dtype x leaves of other dtypes, mixed-dtype pytrees, both x64 modes)
+is ORACLE-ONLY: the Coq model computes in an exact ring and has no dtypes.  Its reference is the same explicit
+element formula evaluated with NumPy scalars of the JAX-promoted result dtype (closed table `promote`), compared
+exactly, result dtype included.  Cases of the x64 mode that is not the driver's run in a worker subprocess
+(`python c11.py --worker`, JAX_ENABLE_X64 set accordingly).
 """
 from __future__ import annotations
 
+import atexit
 import itertools
+import json
+import os
 import random
+import subprocess
+import sys
+import warnings
 from fractions import Fraction
 from math import prod
+from pathlib import Path
 
-import lib
-from lib import PropertyCheck, clist, cz
+sys.path.insert(0, str(Path(__file__).parent))
+
+import lib  # noqa: E402
+from lib import PropertyCheck, clist, cz  # noqa: E402
 
 _cache: dict = {}
 
@@ -180,6 +195,239 @@ def pinv(v):
     return Fraction(0) if v == 0 else 1 / v
 
 
+# ----------------------------------------------------------------------------------------------
+# the dtype stream (oracle-only): stored values of one dtype applied to leaves of other dtypes
+
+
+def x64_mode() -> bool:
+    return bool(fx()[0].config.jax_enable_x64)
+
+
+DTYPES = ('int32', 'float16', 'float32', 'float64', 'complex64', 'complex128')
+# (kind, width of the real component); kinds ordered int < float < complex
+DT_INFO = {'int32': ('i', 0), 'float16': ('f', 16), 'float32': ('f', 32), 'float64': ('f', 64),
+           'complex64': ('c', 32), 'complex128': ('c', 64)}
+
+
+def squash(dt: str, x64: bool) -> str:
+    """the dtype an array of the requested dtype really has: 64-bit types do not exist with x64 disabled"""
+    if x64:
+        return dt
+    return {'float64': 'float32', 'complex128': 'complex64'}.get(dt, dt)
+
+
+def promote(a: str, b: str) -> str:
+    """JAX's type promotion on the dtypes of this stream, written as a closed rule (NOT NumPy's, which makes
+    int32 * float16 a float64): the higher kind wins (int < float < complex), the real component is as wide as
+    the widest inexact operand, at least 32 bits for a complex result; integers contribute no width."""
+    (ka, wa), (kb, wb) = DT_INFO[a], DT_INFO[b]
+    w = max(wa, wb)
+    if 'c' in (ka, kb):
+        return 'complex128' if w == 64 else 'complex64'
+    if 'f' in (ka, kb):
+        return f'float{w}'
+    return 'int32'
+
+
+def to_inexact(dt: str) -> str:
+    """dtype of 1 / d (true division): an int32 array becomes float32 in both x64 modes"""
+    return 'float32' if DT_INFO[dt][0] == 'i' else dt
+
+
+# entries that make a cast VISIBLE: half-integers (lost in an integer dtype), non-zero imaginary parts (lost in a
+# real dtype), 2049 / 4097 (not float16 numbers), 16777217 (not a float32 number), magnitudes > 65504 (inf in float16)
+VPOOL = {
+    'int32': [3, 2049, -2, 16777217, 5, 1, -4097, 7, 4],
+    'float16': [0.5, 1.5, -2.5, 2048.0, 0.25, 3.0, -1.5, 6.5, 2.0],
+    'float32': [0.5, 2049.0, -2.5, 1.5, 4097.0, 0.25, 3.0, -1.5, 2.0],
+    'float64': [0.5, 16777217.0, -2.5, 2049.0, 1.5, 0.25, 3.0, -1.5, 2.0],
+    'complex64': [[1, 2], [0.5, -1], [0, 3], [2049, 1], [-2.5, 0.5], [2, -1], [1.5, 1.5], [-1, -3], [4, 1]],
+    'complex128': [[1, 2], [16777217, -1], [0.5, 3], [2049, 1], [-2.5, 0.5], [2, -1], [1.5, 1.5], [-1, -3], [4, 1]],
+}
+XPOOL = {
+    'int32': [2, 3, 5, 7, 1, 4, 6, 9, 8, 10, 11, 12],
+    'float16': [1.5, 2.0, -0.5, 3.0, 0.25, 5.0, 2.5, -3.0, 7.0, 0.5, 4.0, 6.0],
+    'float32': [1.5, 2.0, -0.5, 3.0, 0.25, 5.0, 2049.0, -3.0, 7.0, 0.5, 4.0, 6.0],
+    'float64': [1.5, 16777217.0, -0.5, 3.0, 0.25, 5.0, 2049.0, -3.0, 7.0, 0.5, 4.0, 6.0],
+    'complex64': [[1, 1], [2, -1], [0.5, 2], [0, 3], [3, 0.5], [-1, 2], [2049, 1], [1.5, -1.5], [0, -1], [4, 1], [5, 2], [-2, -3]],
+    'complex128': [[1, 1], [2, -1], [0.5, 2], [0, 3], [16777217, 0.5], [-1, 2], [2049, 1], [1.5, -1.5], [0, -1], [4, 1], [5, 2], [-2, -3]],
+}
+# values of the inverse stream: zeros, and entries whose reciprocal is exact (powers of two, Gaussian units)
+IPOOL = {
+    'int32': [1, 2, -4, 0, 8, -1, 16, 2, 0],
+    'float16': [0.5, 2.0, -4.0, 0.0, 0.25, 1.0, -8.0, 16.0, 0.125],
+    'float32': [0.5, 2.0, -4.0, 0.0, 0.25, 2.0**-20, -8.0, 16.0, 1.0],
+    'float64': [0.5, 2.0, -4.0, 0.0, 0.25, 2.0**-20, -8.0, 2.0**-30, 1.0],
+    'complex64': [[1, 1], [0, 2], [-4, 0], [0, 0], [0.5, -0.5], [1, 0], [0, -2], [1, -1], [8, 0]],
+    'complex128': [[1, 1], [0, 2], [-4, 0], [0, 0], [0.5, -0.5], [2.0**-30, 0], [0, -2], [1, -1], [8, 0]],
+}
+
+
+def pool_data(pool, dt, n, rot=0):
+    p = pool[dt]
+    return [p[(i + rot) % len(p)] for i in range(n)]
+
+
+def np_array(data, dt, shape):
+    np = fx()[2]
+    flat = [complex(v[0], v[1]) if isinstance(v, list) else v for v in data]
+    return np.array(flat, dtype=dt).reshape(tuple(shape))
+
+
+def enc(v):
+    """a NumPy / Python scalar -> exact JSON-able value (complex: [re, im]; non-finite: its name)"""
+    np = fx()[2]
+    if isinstance(v, (complex, np.complexfloating)):
+        return [enc(v.real), enc(v.imag)]
+    v = float(v)
+    if v != v or v in (float('inf'), float('-inf')):
+        return str(v)
+    return exact(v)
+
+
+def enc_array(a):
+    np = fx()[2]
+    a = np.asarray(a)
+    return [str(a.dtype), list(a.shape), [enc(v) for v in a.ravel()]]
+
+
+def dtype_impl(case):
+    """Observation of the real operator on one dtype case (in the process whose x64 mode is the case's)."""
+    with warnings.catch_warnings():
+        # x64 off: a requested 64-bit dtype is silently its 32-bit counterpart; as_matrix of complex values in a
+        # real input dtype warns about the discarded imaginary part
+        warnings.simplefilter('ignore')
+        return _dtype_impl(case)
+
+
+def _dtype_impl(case):
+    jax, jnp, np, diagonal, ALO = fx()
+    assert x64_mode() == bool(case['x64']), 'x64 mode mismatch'
+    d = jnp.asarray(np_array(case['dd'], case['vdt'], case['vs']))
+    leaves = [jnp.asarray(np_array(x, dt, sh)) for x, dt, sh in zip(case['xs'], case['ldts'], case['ins'])]
+    box = lambda ls: ls[0] if len(ls) == 1 else {chr(97 + i): l for i, l in enumerate(ls)}  # noqa: E731
+    x = box(leaves)
+    st = box([jax.ShapeDtypeStruct(l.shape, l.dtype) for l in leaves])
+    axes = axarg(case['axes'])
+    cls = diagonal.BroadcastDiagonalOperator if case['cls'] == 'broadcast' else diagonal.DiagonalOperator
+    out = {'stored': [str(d.dtype)] + [str(l.dtype) for l in leaves]}
+    op = attempt(lambda: cls(d, axis_destination=axes, in_structure=st))
+    if op[0] == 'ok' and case['cls'] == 'inverse':
+        op = attempt(lambda: op[1].I)
+    if op[0] == 'err':
+        out['error'] = op[1]
+        return out
+    op = op[1]
+    out['class'] = type(op).__name__
+    out['diagonal'] = show(attempt(lambda: enc_array(op.diagonal)))
+    out['out'] = show(attempt(lambda: [[str(l.dtype), list(l.shape)] for l in jax.tree.leaves(op.out_structure())]))
+    out['y'] = show(attempt(lambda: [enc_array(l) for l in jax.tree.leaves(op(x))]))
+    if case.get('jit'):
+        out['jit'] = show(attempt(lambda: [enc_array(l) for l in jax.tree.leaves(jax.jit(lambda t: op.mv(t))(x))]))
+    if case['cls'] != 'broadcast':
+
+        def mat():
+            m = np.asarray(op.as_matrix())
+            v = np.diag(m)
+            if m.shape == (v.size, v.size) and (m == np.diag(v)).all():
+                return enc_array(v)
+            return {'not_diagonal': enc_array(m)}
+
+        out['matrix'] = show(attempt(mat))
+    return out
+
+
+def dtype_reference(case):
+    """What the property demands, from the case alone: for every leaf, the element formula `ref_leaf` evaluated on
+    NumPy scalars of the promoted result dtype (both operands converted to it first, as NumPy/JAX do)."""
+    np = fx()[2]
+    x64 = bool(case['x64'])
+    vdt = squash(case['vdt'], x64)
+    ldts = [squash(dt, x64) for dt in case['ldts']]
+    with warnings.catch_warnings(), np.errstate(all='ignore'):
+        warnings.simplefilter('ignore')
+        d = np_array(case['dd'], case['vdt'], case['vs']).astype(vdt)
+        if case['cls'] == 'inverse':
+            vdt = to_inexact(vdt)
+            d = d.astype(vdt)
+            one = np.ones((), dtype=vdt)
+            d = np.where(d != 0, one / np.where(d != 0, d, one), np.zeros((), dtype=vdt)).astype(vdt)
+        axes = expand_axes(case['axes'], len(case['vs']))
+        strict = case['cls'] != 'broadcast'
+        ys = []
+        for sh, dt, xdata_ in zip(case['ins'], ldts, case['xs']):
+            rd = promote(vdt, dt)
+            xa = np_array(xdata_, case['ldts'][len(ys)], sh).astype(dt).astype(rd)
+            r = ref_leaf(case['vs'], list(d.astype(rd).ravel()), axes, sh, list(xa.ravel()), strict)
+            if r == 'illegal':
+                return {'illegal': True}
+            ys.append([rd, r[0], [enc(v) for v in r[1]]])
+        ref = {'stored': [squash(case['vdt'], x64)] + ldts, 'vdt': vdt, 'diagonal': [vdt, list(d.shape), [enc(v) for v in d.ravel()]], 'y': ys}
+        if strict:
+            # the dense form of the @square class is declared in the promoted dtype P of the INPUT leaves; it can
+            # hold the stored values only if they are not wider than P (C05's guard `params_not_wider`)
+            P = ldts[0]
+            for dt in ldts[1:]:
+                P = promote(P, dt)
+            ref['P'] = P
+            if promote(vdt, P) == P:
+                dv = []
+                for sh in case['ins']:
+                    dv += ref_diag_vector(case['vs'], list(d.astype(P).ravel()), axes, sh)
+                ref['matrix'] = [P, [len(dv)], [enc(v) for v in dv]]
+    return ref
+
+
+# ---- worker processes (one per x64 mode that differs from the driver's), protocol as in harness/c17.py
+
+
+def worker_main():
+    out = sys.stdout
+    sys.stdout = sys.stderr  # keep the protocol channel clean
+    for line in sys.stdin:
+        req = json.loads(line)
+        try:
+            res = {'ok': lib.canon(dtype_impl(req['case']))}
+        except Exception as e:  # reported to the driver as a harness error
+            import traceback
+
+            res = {'err': f'{type(e).__name__}: {e}', 'tb': traceback.format_exc()[-1500:]}
+        out.write(json.dumps(res) + '\n')
+        out.flush()
+
+
+_workers: dict = {}
+
+
+def ask(x64: bool, case: dict):
+    if x64 not in _workers:
+        env = dict(os.environ)
+        env['JAX_ENABLE_X64'] = '1' if x64 else '0'
+        env['PYTHONPATH'] = str(lib.REPO / 'src')
+        env['JAX_PLATFORMS'] = 'cpu'
+        p = subprocess.Popen([sys.executable, str(Path(__file__).resolve()), '--worker'], stdin=subprocess.PIPE,
+                             stdout=subprocess.PIPE, stderr=subprocess.DEVNULL, text=True, env=env)
+        _workers[x64] = p
+        atexit.register(p.kill)
+    p = _workers[x64]
+    p.stdin.write(json.dumps({'case': case}) + '\n')
+    p.stdin.flush()
+    line = p.stdout.readline()
+    if not line:
+        raise RuntimeError('x64 worker died')
+    res = json.loads(line)
+    if 'err' in res:
+        raise RuntimeError(res['err'] + '\n' + res.get('tb', ''))
+    return res['ok']
+
+
+# legal layouts of the dtype stream: (values shape, axis_destination, leaf shapes)
+DT_BROADCAST = [([3], 0, [[3]]), ([3], 0, [[3, 2]]), ([2], -2, [[3]]), ([3], 1, [[2]]), ([2, 3], [1, 0], [[3, 2]]),
+                ([3], -1, [[3], [2, 3]]), ([2], 0, [[2], [2, 3]]), ([2], [-3], [[2, 2], [3]])]
+DT_STRICT = [([3], 0, [[3]]), ([3], 0, [[3, 2]]), ([2, 3], [1, 0], [[3, 2]]), ([3], -1, [[2, 3]]),
+             ([3], -1, [[3], [2, 3]]), ([2], 0, [[2], [2, 3], [2, 1]]), ([2, 1], -1, [[2, 3], [3, 2, 2]])]
+
+
 # (None is a pytree *leaf* for furax.tree.is_leaf and has no .ndim: AttributeError, like a Python scalar -
 # outside the type annotation and the model)
 VTREES = ('dict', 'list', 'tuple')
@@ -209,6 +457,17 @@ class Check(PropertyCheck):
         'so that float32 arithmetic is exact and both sides are compared exactly',
         'the `diagonal` argument is a JAX array or a non-leaf container (Python scalars, which have no .ndim, are '
         'outside the type annotation and the model)',
+        'dtype stream (kind `dtype`: int32 / float16 / float32 / float64 / complex64 / complex128 values x leaves of '
+        'those dtypes, mixed-dtype pytrees, both x64 modes, for BroadcastDiagonalOperator, DiagonalOperator and '
+        'DiagonalInverseOperator) is ORACLE-ONLY - the Coq model is over an exact ring and has no dtypes: op(x) is '
+        'compared exactly, result dtype included, with the element formula evaluated on NumPy scalars of the result '
+        'dtype given by the closed rule `promote` of harness/c11.py (JAX promotion on these dtypes: int < float < '
+        'complex, widest inexact component; 64-bit dtypes are their 32-bit counterparts with x64 off; 1/int32 is '
+        'float32); NumPy IEEE arithmetic and conversions are trusted as the reference; the x64 worker subprocess '
+        'protocol',
+        'as_matrix() of the strict (@square) classes is declared in the promoted dtype of the INPUT leaves: its '
+        'values / dtype are compared in the dtype stream only when the stored values are not wider than that dtype '
+        '(the boundary C05 calls params_not_wider; counted in stats otherwise)',
         'correspondence harness harness/c11.py',
     ]
 
@@ -311,6 +570,42 @@ class Check(PropertyCheck):
                               'ins': [sh], 'xs': [[str(Fraction(v, 1)) for v in [1, 2, -4, 8, 2, -2, 4, 1, 2, 4, 8, -1][: prod(sh)]]]})
         cases.append({'kind': 'inverse', 'vs': [3], 'dd': ['0', '2', '1/2'], 'axes': 0,
                       'ins': [[3], [3, 2]], 'xs': [['1', '2', '4'], ['1', '2', '4', '8', '-2', '-4']]})
+        # (g) dtype stream (oracle-only): every ordered pair (values dtype, leaf dtype) x both x64 modes x the three
+        #     classes on single-leaf layouts (quick: 2 layouts per pair, rotating; thorough: all), and mixed-dtype
+        #     pytrees (quick: 3 seeded leaf-dtype tuples per class x values dtype x mode; thorough: all tuples of
+        #     two-leaf layouts and 12 seeded ones of three-leaf layouts)
+        def dt_case(cls, x64, vdt, layout, ldts, rot):
+            vs, axes, ins = layout
+            pool = IPOOL if cls == 'inverse' else VPOOL
+            c = {'kind': 'dtype', 'cls': cls, 'x64': x64, 'vs': list(vs), 'vdt': vdt, 'dd': pool_data(pool, vdt, prod(vs), rot),
+                 'axes': axes, 'ins': [list(s) for s in ins], 'ldts': list(ldts),
+                 'xs': [pool_data(XPOOL, dt, prod(s), rot + 5 * k) for k, (s, dt) in enumerate(zip(ins, ldts))]}
+            if rng.random() < (0.1 if quick else 0.03):
+                c['jit'] = True
+            cases.append(c)
+
+        n = 0
+        for cls, layouts in (('broadcast', DT_BROADCAST), ('strict', DT_STRICT), ('inverse', DT_STRICT)):
+            single = [l for l in layouts if len(l[2]) == 1]
+            multi = [l for l in layouts if len(l[2]) > 1]
+            for x64 in (False, True):
+                for vdt in DTYPES:
+                    for ldt in DTYPES:
+                        n += 1
+                        for k, lay in enumerate(single):
+                            if not quick or (k - n) % len(single) < 2:
+                                dt_case(cls, x64, vdt, lay, [ldt], n + k)
+                    for lay in multi:
+                        m = len(lay[2])
+                        if quick:
+                            tuples = [[rng.choice(DTYPES) for _ in range(m)] for _ in range(2 if m == 2 else 1)]
+                        elif m == 2:
+                            tuples = [list(t) for t in itertools.product(DTYPES, repeat=2)]
+                        else:
+                            tuples = [[rng.choice(DTYPES) for _ in range(m)] for _ in range(12)]
+                        for t in tuples:
+                            n += 1
+                            dt_case(cls, x64, vdt, lay, t, n)
         # the thorough tier enumerates scope (a) - the DESIGN scope E - completely (the other streams are samples)
         self.exhaustive = not quick
         return cases
@@ -331,7 +626,13 @@ class Check(PropertyCheck):
             'rank x 8 value shapes x the same axis specifications; (c) malformed: repeated axes as written, the empty '
             'tuple, tuples shorter/longer than values.ndim, list-typed axis_destination; (d) rank-0 values, dict / '
             'list / tuple / None values; (e) seeded random: ranks <= 4, rank-3 values, axes in [-6,6]; (f) '
-            'DiagonalInverseOperator on values with zeros and dyadic rationals.  Input leaves hold distinct primes '
+            'DiagonalInverseOperator on values with zeros and dyadic rationals; (g) dtype stream, oracle-only: every '
+            'ordered pair (values dtype, leaf dtype) over int32 / float16 / float32 / float64 / complex64 / complex128 x '
+            'x64 on and off x {Broadcast, strict, inverse} on single-leaf layouts (left / right extension, permuted '
+            'tuple) and mixed-dtype pytrees with leaves of different rank, with half-integers, non-zero imaginary parts, '
+            '2049 / 4097 / 16777217 among the values and the data, op(x) and jit(mv)(x) compared exactly with the NumPy '
+            'product in the promoted dtype (result dtype included), out_structure and as_matrix where defined.  '
+            'Input leaves of the other streams hold distinct primes '
             '> 100 and the values 1..n, so every product identifies the two entries it came from.  Non-trivial: the '
             'constructor of at least one class accepted, or rejected for a reason other than a malformed value.'
         )
@@ -340,6 +641,10 @@ class Check(PropertyCheck):
         d: dict = {}
         for c in cases:
             a = c['axes']
+            if c['kind'] == 'dtype':
+                k = f"dtype/{c['cls']}/{'x64' if c['x64'] else 'x32'}/{'mixed-pytree' if len(c['ins']) > 1 else 'leaf'}"
+                d[k] = d.get(k, 0) + 1
+                continue
             k = f"{c['kind']}/v{len(c['vs'])}/{'int' if isinstance(a, int) else 'tuple' + str(len(a))}/rank" + ','.join(
                 str(len(s)) for s in c['ins'])
             if 'vtree' in c:
@@ -368,6 +673,8 @@ class Check(PropertyCheck):
 
     def run_impl(self, case):
         jax, jnp, np, diagonal, ALO = fx()
+        if case['kind'] == 'dtype':
+            return dtype_impl(case) if x64_mode() == bool(case['x64']) else ask(bool(case['x64']), case)
         ins = case['ins']
         st = structure(ins)
         d = self.values_of(case)
@@ -458,6 +765,8 @@ class Check(PropertyCheck):
 
     # ------------------------------------------------------------------------------------------
     def model_term(self, case):
+        if case['kind'] == 'dtype':
+            return None  # oracle-only: the model has no dtypes
         cn = lambda n: f'{int(n)}%nat'
         shp = lambda s: clist(s, cn)
         ins = clist(case['ins'], shp)
@@ -489,6 +798,8 @@ class Check(PropertyCheck):
     def oracle(self, case, obs):
         if case['kind'] == 'inverse':
             return self.oracle_inverse(case, obs)
+        if case['kind'] == 'dtype':
+            return self.oracle_dtype(case, obs)
         vs, dd, ins, xs = case['vs'], case['dd'], case['ins'], case['xs']
         what = f'values{"(" + case["vtree"] + ")" if "vtree" in case else ""} shape {vs}, axis_destination={case["axes"]}, leaves {ins}'
         names = ('BroadcastDiagonalOperator', 'DiagonalOperator')
@@ -561,3 +872,55 @@ class Check(PropertyCheck):
         if vec != dv:
             return f'{what}: op.I.as_matrix() diagonal {vec}, reference {dv}'
         return None
+
+    def oracle_dtype(self, case, obs):
+        names = {'broadcast': 'BroadcastDiagonalOperator', 'strict': 'DiagonalOperator', 'inverse': 'DiagonalOperator(...).I'}
+        what = (f'{names[case["cls"]]}: values {case["vdt"]} {case["dd"]} shape {case["vs"]}, axis_destination={case["axes"]}, '
+                f'leaves {list(zip(case["ldts"], case["ins"]))} = {case["xs"]}, x64 {"on" if case["x64"] else "off"}')
+        obs = lib.canon(obs)  # (idempotent; a replay hands the raw observation over)
+        ref = lib.canon(dtype_reference(case))
+        if ref.get('illegal'):
+            return None if 'error' in obs else f'{what}: illegal specification accepted'
+        if obs['stored'] != ref['stored']:
+            return f'harness: arrays stored as {obs["stored"]}, expected {ref["stored"]} ({what})'
+        if 'error' in obs:
+            return f'{what}: legal specification rejected with {obs["error"]}'
+        if case['cls'] == 'inverse':
+            if obs['class'] != 'DiagonalInverseOperator':
+                return f'{what}: .I is a {obs["class"]}'
+            if obs['diagonal'] != ref['diagonal']:
+                return f'{what}: .I.diagonal = {obs["diagonal"]}, expected where(d != 0, 1/d, 0) = {ref["diagonal"]}'
+        elif obs['diagonal'] != ref['diagonal']:
+            return f'{what}: stored values read back as {obs["diagonal"]}, given {ref["diagonal"]}'
+        if obs['y'] != ref['y']:
+            return (f'{what}: op(x) = {obs["y"]} differs from the NumPy product values_laid_out * leaf in the promoted '
+                    f'dtype, {ref["y"]}')
+        if 'jit' in obs and obs['jit'] != ref['y']:
+            return f'{what}: jit(op.mv)(x) = {obs["jit"]} differs from the NumPy product {ref["y"]}'
+        shapes = [[e[0], e[1]] for e in ref['y']]
+        if isinstance(obs['out'], dict) or [e[1] for e in obs['out']] != [e[1] for e in shapes]:
+            return f'{what}: out_structure {obs["out"]}, reference {shapes}'
+        if case['cls'] == 'broadcast':
+            if obs['out'] != shapes:
+                return f'{what}: out_structure {obs["out"]}, the result has {shapes}'
+            return None
+        # @square classes declare out_structure = in_structure: it is the structure of the result only where the
+        # stored values are not wider than the leaf (C05's params_not_wider boundary)
+        for o, e, ldt in zip(obs['out'], shapes, ref['stored'][1:]):
+            if e[0] == ldt and o != e:
+                return f'{what}: out_structure {obs["out"]}, the result has {shapes}'
+            if e[0] != ldt:
+                self.stats['dtype_values_wider_than_leaf_out_structure_not_compared'] = (
+                    self.stats.get('dtype_values_wider_than_leaf_out_structure_not_compared', 0) + 1)
+        if 'matrix' in ref:
+            if obs['matrix'] != ref['matrix']:
+                return f'{what}: as_matrix() diagonal {obs["matrix"]}, reference {ref["matrix"]}'
+        else:
+            self.stats['dtype_values_wider_than_input_as_matrix_not_compared'] = (
+                self.stats.get('dtype_values_wider_than_input_as_matrix_not_compared', 0) + 1)
+        return None
+
+
+if __name__ == '__main__':
+    if '--worker' in sys.argv:
+        worker_main()
